@@ -11,8 +11,14 @@ class CallMixin:
     # ---------------------------------------------------------------- calls
     def e_Call(self, node, st):
         f = node.func
-        if any(isinstance(a, ast.Starred) for a in node.args) or any(k.arg is None for k in node.keywords):
+        starred = any(isinstance(a, ast.Starred) for a in node.args) or any(k.arg is None for k in node.keywords)
+        if starred and not (isinstance(f, ast.Name) and f.id in st.env and st.env[f.id].ty.key in self.call_handlers):
             raise Unsupported("star-args in call", node)
+        if isinstance(f, ast.Call) and isinstance(f.func, ast.Name) and f.func.id == "type" and len(f.args) == 1 and not node.args:
+            # type(x)(): a new object of x's class (its fields are whatever that class's __init__ sets: unconstrained here)
+            x = self.eval(f.args[0], st)
+            if isinstance(x.ty, TObj):
+                return fresh(x.ty, "new_" + x.ty.cls, self.classes_fields())
         # builtins and module-level functions by name
         if isinstance(f, ast.Name):
             name = f.id
@@ -50,7 +56,17 @@ class CallMixin:
                     return self.global_calls[dotted](self, node, st)
                 raise Unsupported("call of %s: no contract" % dotted, node)
             if isinstance(f.value, ast.Call) and isinstance(f.value.func, ast.Name) and f.value.func.id == "super":
-                raise Unsupported("super() call", node)
+                # super().m(...): the base class's method applied to self, by its contract
+                owner = self.con.qualname.rsplit(".", 2)[-2] if not getattr(self.con, "source", None) else self.con.source.rsplit(".", 2)[-2]
+                cdef = self.mod.classes.get(owner)
+                if cdef is None or not cdef.bases or not isinstance(cdef.bases[0], ast.Name):
+                    raise Unsupported("super() outside a simple class", node)
+                q = "%s.%s.%s" % (self.mod.name, cdef.bases[0].id, f.attr)
+                if q not in S.REGISTRY:
+                    raise Unsupported("super().%s: no contract for %s" % (f.attr, q), node)
+                recv = st.env[next(iter(self.con.params))]
+                args, kw = self.eval_args(node, st)
+                return self.call_contract(S.REGISTRY[q], [recv] + args, kw, node, st, recv_node=ast.Name(id=next(iter(self.con.params)), ctx=ast.Load()))
             recv = self.eval(f.value, st)
             return self.method_call(recv, f.attr, node, st, recv_node=f.value)
         raise Unsupported("call form", node)
@@ -75,6 +91,8 @@ class CallMixin:
                 h = self.call_handlers.get(fv.ty.key)
                 if h:
                     return h(self, fv, node, st)
+                if isinstance(fv.ty, TOpt) and fv.ty.elem.key in self.call_handlers:
+                    return self.call_handlers[fv.ty.elem.key](self, self.coerce(fv, fv.ty.elem, node, "callable field"), node, st)
             raise Unsupported("method %s.%s: no contract" % (ty.cls, name), node)
         m = self.method_handlers.get((ty.key, name))
         if m:
@@ -378,11 +396,23 @@ class CallMixin:
         raise Unsupported("class expression", e)
 
     def b_getattr(self, node, st):
+        if len(node.args) >= 2 and not isinstance(node.args[1], ast.Constant):
+            base = self.eval(node.args[0], st)
+            h = self.getattr_dyn_handlers.get(base.ty.key)
+            if h:
+                return h(self, base, self.eval(node.args[1], st), node, st)
         if len(node.args) < 2 or not (isinstance(node.args[1], ast.Constant) and isinstance(node.args[1].value, str)):
             raise Unsupported("getattr with a computed name", node)
         base = self.eval(node.args[0], st)
         # the default (3rd argument) is irrelevant when the attribute is known to exist
         return self.getattr_val(base, node.args[1].value, node, st)
+
+    def b_hash(self, node, st):
+        (v,) = [self.eval(a, st) for a in node.args]
+        h = self.hash_handlers.get(v.ty.key)
+        if h is None:
+            raise Unsupported("hash() of %s" % v.ty, node)
+        return h(self, v, node, st)
 
     def b_bool(self, node, st):
         return Val(TBool, self.truthy(self.eval(node.args[0], st), node))
